@@ -154,6 +154,7 @@ impl<B> GrpcWebCall<B> {
 
 def build():
     u = Unit('webserver', ['C16'])
+    u.fn_guard('tonic-web/src/call.rs', 'internal_error', 'fn internal_error(e: impl std::fmt::Display) -> Status { Status::internal(format!("tonic-web: {}", e)) }', why='A-tonic-web-00')
     common.http_base(u)
     u.prelude('wire.rs')
     u.raw(SHIMS.replace('/*ROWSPEC*/', common.TRAILER_ROW_SPEC))
